@@ -188,8 +188,8 @@ func lockstepRun(f *family, lc lockstepCase) ([]hop, string) {
 	go func() { wg.Wait(); close(done) }()
 	select {
 	case <-done:
-	case <-time.After(5 * time.Second):
-		return hist, "the operations did not finish within 5 s after the lock was released"
+	case <-time.After(hangLimit):
+		return hist, "the operations did not finish within 25 s after the lock was released"
 	}
 	hist = append(hist, res...)
 	if linearize(f, hist) == nil {
